@@ -11,6 +11,7 @@ site renames the parameter exactly once, selection replaces the exported set and
 nothing else, the data formats are identical up to the dumper; (R6) no per-parameter state leaks
 from one loop iteration into the next. NOT decided: acceptance by the foreign tool chains. Also: recursive array walkers do not change their parameters in place; type cells are evaluated by concrete partial evaluation of the mapping code (table-driven or ladder-shaped)."""
 import ast
+import re
 import itertools
 
 from ..literal import Evaluator
@@ -290,14 +291,7 @@ def r2_array_layout(ctx):
                 ctx.holds(CF + f, cname, "array rendering inherited from the C back-end", trivial=True)
                 continue
         fn = ctx.fn(CF + f, f"{cname}._parse_array")
-        loops = [l for l in fn.body if isinstance(l, ast.For)]
-        it = norm(loops[0].iter) if loops else None
-        ctx.check(it in ("values", "enumerate(values)"), CF + f, f"{cname}._parse_array", "elements are rendered in index order", detail=it)
-        sh = [a for a in ast.walk(fn) if isinstance(a, ast.Assign) and norm(a.targets[0]) == "shape" and isinstance(a.value, ast.BinOp)]
-        if len(sh) != 1:
-            ctx.unrecognised(CF + f, f"{cname}._parse_array", "shape", "shape = [len(values)] + shape not found")
-        else:
-            ctx.check(norm(sh[0].value) == "[len(values)] + shape", CF + f, f"{cname}._parse_array", "shape lists the outermost extent first", detail=norm(sh[0].value))
+        _walker_shape(ctx, CF + f, f"{cname}._parse_array", fn)
         app = [norm(c) for c in ast.walk(fn) if isinstance(c, ast.Call) and norm(c.func) == "strings.append"]
         ctx.form(app == ["strings.append(string)"], CF + f, f"{cname}._parse_array", "every element contributes one rendered piece, appended in order")
     # Rust nested type from the reversed shape
@@ -326,6 +320,83 @@ def r2_array_layout(ctx):
         ctx.check((has_order and desc) or reversed_dims, CF + "export_fortran.py", "ExportConfigFortran.parse",
                   "reshape of the row-major value list compensates Fortran's column-major fill", detail={"order_argument": has_order, "descending": desc, "reversed_dims": reversed_dims},
                   expected="reshape([...],[dims],order=[n,...,1])")
+
+
+def _walker_shape(ctx, rel, qual, fn):
+    """The recursive array walker as a two-cell table.  Per element: a nested sequence hands its shape up from the
+    recursive call, a scalar leaves the shape None.  After the loop: shape None (row of scalars) -> [len(values)];
+    otherwise [len(values)] + inner shape (outermost extent first).  Read from the resolved iteration and function paths."""
+    from ..flowexpr import explore
+    vals = fn.args.args[-2].arg if qual.startswith("ExportConfigBash") and len(fn.args.args) >= 3 else None
+    ex = explore(fn)
+    cand = [(lp, start, its) for lp, start, its in ex.iterations.values() if isinstance(lp, ast.For)]
+    its_ok = None
+    for lp, start, its in cand:
+        it = norm(lp.iter)
+        m = re.fullmatch(r"(?:enumerate\()?(\w+)\)?", it)
+        if m and m.group(1) in {a.arg for a in fn.args.args}:
+            vals, its_ok = m.group(1), its
+            break
+        m = re.fullmatch(r"(?:enumerate\()?(?:reversed\((\w+)\)|(\w+)\[::-1\])\)?", it)
+        if m and (m.group(1) or m.group(2)) in {a.arg for a in fn.args.args}:
+            ctx.violated(rel, qual, "elements are rendered in index order", detail=it, expected="for value in values")
+            return
+    if its_ok is None:
+        ctx.form(False, rel, qual, "the element loop over the values parameter is found", detail=[norm(lp.iter) for lp, _, _ in cand])
+        return
+    ctx.holds(rel, qual, "elements are rendered in index order")
+    # iteration cells
+    sname, cells = None, {}
+    for q in its_ok:
+        nested = None
+        for t in q.tests():
+            r = t.resolved
+            if isinstance(r, ast.Call) and dotted_name(r.func) == "isinstance" and len(r.args) == 2 and any(x in norm(r.args[1]) for x in ("list", "ndarray", "tuple")):
+                nested = t.extra
+        if nested is None:
+            continue
+        for k, v in q.env.items():
+            if isinstance(v, ast.Subscript) and isinstance(v.value, ast.Call) and norm(v.value.func) == f"self.{fn.name}" and norm(v.slice) == "1":
+                sname = k
+        cells[nested] = q
+    if sname is None or set(cells) != {True, False}:
+        ctx.form(False, rel, qual, "per element: nested sequences recurse and hand their shape up, scalars do not", detail={"cells": sorted(map(str, cells)), "shape variable": sname})
+        return
+    leaf = cells[False].env.get(sname)
+    ctx.form(leaf is not None and norm(leaf) == "None", rel, qual, "a row of scalars leaves the inner shape None", detail=norm(leaf) if leaf is not None else None)
+    # after the loop
+    tok = re.compile(re.escape(sname) + r"@loop\d+'?")
+    outer = f"[len({vals})]"
+    seen = 0
+    for q in ex.paths:
+        if q.status != "return":
+            continue
+        none_holds = None
+        for t in q.tests():
+            k = norm(t.resolved)
+            m = re.fullmatch(r"(" + tok.pattern + r") is (not )?None", k)
+            if m:
+                none_holds = t.extra if not m.group(2) else (not t.extra)
+        ret = next((e.resolved for e in q.events if e.kind == "return"), None)
+        if none_holds is None or not isinstance(ret, ast.Tuple) or len(ret.elts) != 2:
+            continue
+        seen += 1
+        got = tok.sub("INNER", norm(ret.elts[1]))
+        if none_holds:
+            what = "a row of scalars has the shape [number of elements]"
+            if "INNER" in got:
+                ctx.violated(rel, qual, what, detail=got.replace("INNER", "None"), expected=outer)
+            else:
+                ctx.form(got == outer, rel, qual, what, detail=got)
+        else:
+            what = "a nested level has the shape [number of elements] + inner shape (outermost extent first)"
+            if got == outer:
+                ctx.violated(rel, qual, what, detail=f"{got}: the inner extents are dropped", expected=f"{outer} + inner")
+            elif got == f"INNER + {outer}":
+                ctx.violated(rel, qual, what, detail=got.replace("INNER", "inner"), expected=f"{outer} + inner")
+            else:
+                ctx.form(got == f"{outer} + INNER", rel, qual, what, detail=got)
+    ctx.form(seen >= 2, rel, qual, "both outcomes of the shape test after the loop are found", detail=seen)
 
 
 def _no_param_mutation(ctx):
